@@ -125,6 +125,14 @@ var templates = []func(u string) string{
 		return "func lit" + u + "() { return [[0, 0], [\"x\"]] }\nq" + u + " = lit" + u + "()\nq" + u + "[0][1] = base\nq" + u + "[1][0] = \"y\" + base\nrec(lit" + u + "())\nrec(q" + u + ")"
 	},
 	func(u string) string {
+		// one operator node, operands of a different kind in each environment
+		return "k" + u + " = ow ? 1.5 : 2\nrec(k" + u + " + 1)\nk" + u + "++\nrec(k" + u + ")\ns" + u + " = ow ? \"s\" : base\nrec(s" + u + " + 1)\nrec(1 + s" + u + ")\nq" + u + " = ow ? base : 0.5\nq" + u + " += 2\nq" + u + "--\nrec(q" + u + " * 2)\nrec(q" + u + " - 1)\nrec(q" + u + " == 1)\nrec(-q" + u + ")"
+	},
+	func(u string) string {
+		// closures created two blocks deep that escape their blocks
+		return "fs" + u + " = []\nfor i" + u + " = 0; i" + u + " < 2; i" + u + "++ {\nif true {\nt" + u + " = base + i" + u + "\nfs" + u + " += func() { return t" + u + " }\n}\n}\nfor x" + u + " in [1, 2] { switch x" + u + " {\ncase 1:\nz" + u + " = x" + u + " * base\nfs" + u + " += func() { z" + u + "++; return z" + u + " }\n}\n}\ntry { w" + u + " = base; for true { fs" + u + " += func() { return w" + u + " }; break } } catch { }\nrec(fs" + u + "[0]())\nrec(fs" + u + "[1]())\nrec(fs" + u + "[2]())\nrec(fs" + u + "[2]())\nrec(fs" + u + "[3]())"
+	},
+	func(u string) string {
 		return "recid(envid)\nrecid(import(\"strings\").envid)\nrecid(import(\"sort\").envid + 0)\nmodule Q" + u + " { func id() { return envid } }\nrecid(Q" + u + ".id())\nrecid(func() { return envid }())"
 	},
 	func(u string) string {
